@@ -92,14 +92,27 @@ func setCase[T comparable](c *core.Ctx, tname string, univ []T, less func(a, b T
 		want := sorted(o.m)
 		obs := []func() bool{
 			func() bool { // Slice
-				var got []T
-				if p, pv := core.Catch(func() { got = sortS(o.s.Slice()) }); p {
+				var got, raw []T
+				if p, pv := core.Catch(func() { raw = o.s.Slice(); got = sortS(raw) }); p {
 					fail(op+":Slice-panic", fmt.Sprintf("%s.Slice() after %s panicked: %v", o.name, op, pv))
 					return false
 				}
 				if !eqSlice(got, want) {
 					fail(op+":members["+o.impl+"]", fmt.Sprintf("after %s, %s (%s) holds %v, model %v", op, o.name, o.impl, got, want))
 					return false
+				}
+				// the returned slice is the caller's: overwrite it; no later observation may notice
+				if len(raw) > 0 && r.Bool() {
+					for i := range raw {
+						raw[i] = univ[0]
+					}
+					c.Count("returned_slice_overwritten", 1)
+					if r.Bool() {
+						if again := sortS(o.s.Slice()); !eqSlice(again, want) {
+							fail(op+":Slice-after-overwrite["+o.impl+"]", fmt.Sprintf("after the caller overwrote the slice returned by %s.Slice(), the next Slice() gives %v, model %v", o.name, again, want))
+							return false
+						}
+					}
 				}
 				return true
 			},
@@ -199,6 +212,7 @@ func setCase[T comparable](c *core.Ctx, tname string, univ []T, less func(a, b T
 	// construct a set by a random history
 	build := func(impl, name string) *setObj[T] {
 		o := newEmpty(impl, name)
+		var postChecks []func() bool
 		// constructors with duplicates
 		switch r.Intn(5) {
 		case 0:
@@ -220,27 +234,88 @@ func setCase[T comparable](c *core.Ctx, tname string, univ []T, less func(a, b T
 			c.Count("ctor_from_slice", 1)
 		case 1:
 			mm := map[T]int{}
+			ms := map[T]struct{}{}
 			mv := map[int]T{}
 			for i := 0; i < r.Intn(8); i++ {
 				v := univ[r.Intn(len(univ))]
 				mm[v] = i
+				ms[v] = struct{}{}
 				mv[i] = v
 				o.m[v] = true
 			}
-			if r.Bool() {
+			// afterwards the source map is modified (the set must not notice), and at the
+			// end of the construction history the source map must still be what the caller
+			// made of it (the set's own mutations must not reach it)
+			disturb := func(del func(T), add func(T), keys func() []T) {
+				want := map[T]bool{}
+				for k := range o.m {
+					want[k] = true
+				}
+				for i := 0; i < r.Intn(4); i++ {
+					v := univ[r.Intn(len(univ))]
+					if r.Bool() {
+						del(v)
+						delete(want, v)
+					} else {
+						add(v)
+						want[v] = true
+					}
+				}
+				c.Count("ctor_source_modified_afterwards", 1)
+				postChecks = append(postChecks, func() bool {
+					if got := sortS(keys()); !eqSlice(got, sorted(want)) {
+						fail("constructor:source-map-changed["+impl+"]", fmt.Sprintf("the map handed to the constructor of %s now has keys %v; the caller left it with %v (the set's mutations reached it)", name, got, sorted(want)))
+						return false
+					}
+					return true
+				})
+			}
+			switch r.Intn(4) {
+			case 0:
 				hist = append(hist, fmt.Sprintf("%s=%s.NewSetFromKeys(%v)", name, impl, mm))
 				if impl == "maps" {
 					o.s = tmaps.NewSetFromKeys(mm)
 				} else {
 					o.s = sync2.NewSetFromKeys(mm)
 				}
+				disturb(func(v T) { delete(mm, v) }, func(v T) { mm[v] = 1 }, func() []T {
+					var ks []T
+					for k := range mm {
+						ks = append(ks, k)
+					}
+					return ks
+				})
 				c.Count("ctor_from_keys", 1)
-			} else {
+			case 1:
+				// V = struct{}: the argument already has the representation of a map-backed set
+				if len(ms) == 0 && r.Bool() {
+					ms = nil
+				}
+				hist = append(hist, fmt.Sprintf("%s=%s.NewSetFromKeys(map[T]struct{}%v nil=%v)", name, impl, sorted(o.m), ms == nil))
+				if impl == "maps" {
+					o.s = tmaps.NewSetFromKeys(ms)
+				} else {
+					o.s = sync2.NewSetFromKeys(ms)
+				}
+				if ms != nil {
+					disturb(func(v T) { delete(ms, v) }, func(v T) { ms[v] = struct{}{} }, func() []T {
+						var ks []T
+						for k := range ms {
+							ks = append(ks, k)
+						}
+						return ks
+					})
+				}
+				c.Count("ctor_from_keys_struct{}", 1)
+			default:
 				hist = append(hist, fmt.Sprintf("%s=%s.NewSetFromValues(%v)", name, impl, mv))
 				if impl == "maps" {
 					o.s = tmaps.NewSetFromValues(mv)
 				} else {
 					o.s = sync2.NewSetFromValues(mv)
+				}
+				for i := 0; i < r.Intn(3); i++ {
+					mv[r.Intn(8)] = univ[r.Intn(len(univ))]
 				}
 				c.Count("ctor_from_values", 1)
 			}
@@ -312,6 +387,11 @@ func setCase[T comparable](c *core.Ctx, tname string, univ []T, less func(a, b T
 				c.Count("clone", 1)
 			}
 			if !checkSome(o, "construction-step", true) {
+				return nil
+			}
+		}
+		for _, pc := range postChecks {
+			if !pc() {
 				return nil
 			}
 		}
